@@ -524,11 +524,20 @@ impl<D: Doc> Node<'_, D> {
     replacer: R,
   ) -> Vec<Edit<D>> {
     // TODO: support nested matches like Some(Some(1)) with pattern Some($A)
-    Visitor::new(&matcher)
-      .reentrant(false)
-      .visit(self.clone())
-      .map(|matched| matched.make_edit(&matcher, &replacer))
-      .collect()
+    let mut edits: Vec<Edit<D>> = vec![];
+    let mut end = 0;
+    let matches = Visitor::new(&matcher).reentrant(false).visit(self.clone());
+    for matched in matches {
+      let edit = matched.make_edit(&matcher, &replacer);
+      // a replacer can widen the replaced range beyond the matched node:
+      // an edit overlapping the previous one is dropped, as the CLI does
+      if edit.position < end {
+        continue;
+      }
+      end = edit.position + edit.deleted_length;
+      edits.push(edit);
+    }
+    edits
   }
 
   pub fn after(&self) -> Edit<D> {
